@@ -77,8 +77,10 @@ func (d *DID) GenEvents(o GenOpts) []Event {
 		case o.Replays && roll < 38 && len(past) > 0:
 			evs = append(evs, Event{Op: past[r.Intn(len(past))], Label: "replay"})
 			continue
-		case o.Forks && roll < 46 && len(past) > 0 && !d.Deact:
-			// a competing valid operation for the commitment that the previous legit op consumed
+		case o.Forks && roll < 46 && len(past) > 0 && (!d.Deact || past[len(past)-1].Spec.Type == operation.TypeDeactivate):
+			// a competing valid operation for the commitment that the previous legit op consumed; for the two kinds
+			// of full operation also of the OTHER kind (a recover signed with the key a deactivate has spent, and the
+			// reverse), anchored later
 			prev := past[len(past)-1]
 			s := prev.Spec
 			if s.Type != operation.TypeCreate && s.Tamper == TNone {
@@ -86,10 +88,24 @@ func (d *DID) GenEvents(o GenOpts) []Event {
 				s.Patches = nil
 				s.Label = "fork"
 				s.From, s.Until = 0, 0
+				lbl := "fork:"
+				switch {
+				case s.Type == operation.TypeRecover && r.Intn(2) == 0:
+					s.Type, s.NextUpd, s.NextRec, s.Origin, s.OriginID = operation.TypeDeactivate, "", "", nil, 0
+					lbl = "xfork:"
+				case s.Type == operation.TypeDeactivate && (d.Deact || r.Intn(2) == 0):
+					s.Type = operation.TypeRecover
+					s.NextRec = d.Stranger(r.Intn(3)).Commitment(d.Code)
+					s.Origin, s.OriginID = OriginValue(9), 9
+					lbl = "xfork:"
+				}
 				if s.Type != operation.TypeDeactivate {
 					s.NextUpd = d.Stranger(r.Intn(3)).Commitment(d.Code)
+					for s.NextUpd == s.NextRec {
+						s.NextUpd = d.Stranger(r.Intn(3)).Commitment(d.Code)
+					}
 				}
-				evs = append(evs, Event{Op: Build(s), Label: "fork:" + string(s.Type)})
+				evs = append(evs, Event{Op: Build(s), Label: lbl + string(s.Type)})
 				continue
 			}
 		case o.Cycles && roll < 54 && !d.Deact && d.CurUpd != nil:
